@@ -179,3 +179,24 @@ func (g *GBuf) OverCap() []byte {
 	lo := g.ps + g.lo
 	return g.region[lo : lo+len(g.B) : lo+len(g.B)+g.ps]
 }
+
+// ZeroMap returns n bytes of untouched anonymous memory outside the Go heap (MAP_NORESERVE): reads see
+// zeros and cost no resident memory until a page is written. It makes operands of 2^31 .. 2^33 bytes
+// affordable, for the places where a length crosses an integer width. writable=false maps it PROT_READ.
+func ZeroMap(n int, writable bool) []byte {
+	prot := syscall.PROT_READ
+	if writable {
+		prot |= syscall.PROT_WRITE
+	}
+	b, err := syscall.Mmap(-1, 0, n, prot, syscall.MAP_ANON|syscall.MAP_PRIVATE|syscall.MAP_NORESERVE)
+	if err != nil {
+		return nil
+	}
+	return b
+}
+
+func Unmap(b []byte) {
+	if b != nil {
+		syscall.Munmap(b)
+	}
+}
